@@ -359,8 +359,22 @@ def run(ck):
     ck.ob('DT-attributes-match', molmod.loc(am), ok, 'an atom matches a template when every non-ignored template attribute is equal to the atom\'s, or is a predicate that accepts it',
           key='DT-attributes-match')
     dl_ = [s_ for s_ in walk_local(rmi) if isinstance(s_, ast.Delete)]
-    ok = len(dl_) == 1 and 'interaction_match(self, interaction, template_interaction)' in u(rmi) and isinstance(rmi.body[-1], ast.For) and rmi.body[-1].orelse \
-        and isinstance(rmi.body[-1].orelse[-1], ast.Raise)
+    ok = False
+    loops_ = [s_ for s_ in rmi.body if isinstance(s_, ast.For)]
+    if len(dl_) == 1 and len(loops_) == 1 and 'interaction_match(self, interaction, template_interaction)' in u(rmi):
+        lp_ = loops_[0]
+        after = rmi.body[[k for k, s_ in enumerate(rmi.body) if s_ is lp_][0] + 1:]
+        block_ = next((blk for n_ in [lp_] + [x for x in ast.walk(lp_) if isinstance(x, ast.If)] for blk in (n_.body, n_.orelse) if any(s_ is dl_[0] for s_ in blk)), [])
+        pos_ = [k for k, s_ in enumerate(block_) if s_ is dl_[0]]
+        leaves = block_[pos_[0] + 1] if pos_ and pos_[0] + 1 < len(block_) else None
+        # either spelling of "stop at the first match, complain when the loop finds none": for/else with break, or return from the loop and raise after it
+        if lp_.orelse:
+            ok = isinstance(leaves, ast.Break) and isinstance(lp_.orelse[-1], ast.Raise) and not after
+        else:
+            ok = isinstance(leaves, ast.Return) and leaves.value is None and len(after) == 1 and isinstance(after[0], ast.Raise)
+        # the deletion happens exactly for a matching interaction (nested test, or `if not match: continue` before it)
+        reach_ = stmts_with_env(rmi, lambda s_: s_ is dl_[0], stmts=lp_.body)
+        ok = ok and len(reach_) == 1 and flow.equivalent(reach_[0][1], ('atom', ('truth', 'interaction_match(self, interaction, template_interaction)')))[0]
     ck.ob('DT-interaction-match', molmod.loc(rmi), ok, 'remove_matching_interaction deletes the first interaction that matches the template and raises when none does', key='DT-interaction-match|remove')
     amc = [c for c in walk_local(mod.func('_atoms_match')) if isinstance(c, ast.Call) and call_name(c) == 'attributes_match']
     ok = any(try_fold(kwarg(c, 'ignore_keys'), default=()) == ('order', 'replace', 'modifications') and [u(a) for a in c.args] == ['node1', 'node2'] for c in amc)
